@@ -16,7 +16,9 @@ ROOT = os.path.dirname(os.path.dirname(os.path.abspath(__file__)))
 REPO = os.environ.get("LADIM_REPO", "/repo")
 GUARD = "BJORNAA_LADIM2_VERIF"
 # runs against a scratch copy (mutant experiments) must not overwrite the committed evidence
-OUT = ROOT if os.path.realpath(REPO) == "/repo" else os.path.join(os.environ.get("TMPDIR") or "/tmp", "lv_mutant_out")
+# (VERIF_OUT: soundness runs with other seeds write their evidence and replays elsewhere, too)
+OUT = os.environ.get("VERIF_OUT") or (
+    ROOT if os.path.realpath(REPO) == "/repo" else os.path.join(os.environ.get("TMPDIR") or "/tmp", "lv_mutant_out"))
 
 
 # ------------------------------------------------------------------------------------------------
